@@ -15,7 +15,7 @@ pub static PROP: PropDef = PropDef {
     builds: |_| vec![Build::Opt, Build::RayonOpt],
     max_tape: 96,
     cases: |t| match t {
-        Tier::Quick => 24_000,
+        Tier::Quick => 40_000,
         Tier::Thorough => 800_000,
     },
     fixed: no_fixed,
